@@ -16,7 +16,7 @@ ASSUMPTIONS = ["moduli are representable in the key dtype and small (one bucket 
 ANCHORS = ["hashtable.py::Counter.count", "hashtable.py::Counter.__init__", "raggedshape.py::ViewBase.ravel_multi_index", "raggedshape.py::RaggedView._get_flat_indices_fast",
            "raggedshape.py::ViewBase.empty_rows_removed", "hashtable.py::HashTable.__getitem__"]
 FLOOR_TAGS = ["init:default", "init:scalar0", "init:scalar", "init:array", "batch:empty", "batch:nokey", "batch:onlykeys", "batch:mixed", "batch:heavy", "batch:collide",
-              "batch:wide", "batch:pylist", "mod:1", "mod:None", "mod:explicit", "state:first-hit-on-scalar0", "state:first-hit-on-scalar", "state:array", "no-hit-call"]
+              "batch:wide", "batch:pylist", "batch:othersign", "batch:huge", "keys>=33", "mod:1", "mod:None", "mod:explicit", "state:first-hit-on-scalar0", "state:first-hit-on-scalar", "state:array", "no-hit-call"]
 FLOOR_MONITORS = ["c12:batch", "c12:twin-read-at-end", "c12:twin-one-batch", "c12:twin-resplit", "c12:twin-modulus", "probe:buckets"]
 N_RANDOM = {"quick": 7500, "thorough": 100000}
 
@@ -37,6 +37,16 @@ def make(case, mod):
     return C(ka, init, **kw)
 
 
+def expand(b, case):
+    """batches given by a formula (huge batches are not written out in the case)"""
+    if "gen" in b and "samples" not in b:
+        pool = list(case["keys"]) + list(b["gen"].get("extra", []))
+        n, a = b["gen"]["n"], b["gen"]["mult"]
+        idx = (np.arange(n, dtype=np.int64) * a + (np.arange(n, dtype=np.int64) // 7)) % len(pool)
+        b = dict(b, samples=[pool[i] for i in idx.tolist()])
+    return b
+
+
 def samples_of(b, kd):
     if b.get("pylist"):
         return list(b["samples"])
@@ -50,7 +60,7 @@ def totals(cn, case):
 def run(case):
     keys, kd, mod, init = case["keys"], case["kdtype"], case["mod"], case["init"]
     tags = ["init:" + ("default" if init == "default" else ("array" if isinstance(init, list) else ("scalar0" if init == 0 else "scalar"))),
-            "mod:" + ("None" if mod is None else ("1" if mod == 1 else "explicit")), "kd:" + (kd or "list")]
+            "mod:" + ("None" if mod is None else ("1" if mod == 1 else "explicit")), "kd:" + (kd or "list")] + (["keys>=33"] if len(keys) >= 33 else [])
     desc0 = "Counter(keys=%s %s, init=%s, mod=%s)" % (kd, short(keys, 120), short(init, 60), mod)
     c = attempt(make, case, mod)
     if not c.ok:
@@ -63,6 +73,7 @@ def run(case):
         return violated("%s reads %s before any count, expected %s" % (desc0, repr(first) if not first.ok else first.value, [model[k] for k in keys]), tags)
     hits_so_far = 0
     allsamples = []
+    case = dict(case, batches=[expand(b, case) for b in case["batches"]])
     for bi, b in enumerate(case["batches"]):
         tags.append("batch:" + b["kind"])
         if b.get("pylist"):
@@ -107,7 +118,9 @@ def run(case):
             return "twin '%s' (same samples, %s) ends with totals %s, the step-by-step run ended with %s" % (name, short(plan, 160), repr(r) if not r.ok else r.value, final)
         return None
 
-    wide = any(b.get("sdtype") for b in case["batches"])
+    wide = any(b.get("sdtype") for b in case["batches"]) or any(not (-2 ** 63 <= x < 2 ** 63) for x in allsamples)
+    if any(not (-2 ** 63 <= x < 2 ** 63) for x in allsamples):
+        return held(tags, nontrivial)       # samples of both signednesses beyond int64: no common typed array for the twins
     sdt = "int64" if (wide or kd is None) else kd
     typed = lambda s: np.array(s, dtype=sdt)
     msgs = [
@@ -128,7 +141,7 @@ def run(case):
 # ----------------------------------------------------------------------------- workloads
 
 def gen_history(rng, tier, kd="pick", init=None, mod="pick", nb=None):
-    keys, kd, style, (lo, hi), (lo2, hi2) = c11.gen_keys(rng, kd, tier=tier)
+    keys, kd, style, (lo, hi), (lo2, hi2) = c11.gen_keys(rng, kd, tier=tier, nk=rng.randint(33, 64) if rng.random() < 0.12 else None)
     n = len(keys)
 
     def pick_mod():
@@ -161,7 +174,7 @@ def gen_history(rng, tier, kd="pick", init=None, mod="pick", nb=None):
         return None
     batches = []
     for _ in range(nb if nb is not None else rng.randint(0, 5)):
-        kind = rng.choice(["empty", "nokey", "onlykeys", "mixed", "heavy", "collide", "wide"])
+        kind = rng.choice(["empty", "nokey", "onlykeys", "mixed", "heavy", "collide", "wide", "othersign", "fewrepeats"])
         L = rng.randint(1, 14)
         b = {"kind": kind}
         if kind == "empty":
@@ -174,6 +187,27 @@ def gen_history(rng, tier, kd="pick", init=None, mod="pick", nb=None):
             s = [keys[0]] * (3 * L) + [rng.choice(keys) for _ in range(2)]
         elif kind == "collide":
             s = [rng.choice(keys) if rng.random() < 0.4 else nonkey(collide=True) for _ in range(L)]
+        elif kind == "fewrepeats":
+            kind = b["kind"] = "mixed"
+            k1 = rng.choice(keys)
+            s = [k1] * rng.randint(2, 4) + [rng.choice(keys) for _ in range(rng.randint(0, 2))]     # few hits, one key repeated
+        elif kind == "othersign":
+            # samples of the opposite signedness (same width) whose bit pattern equals a key's
+            if kd is None:
+                kind = b["kind"] = "mixed"
+                s = [rng.choice(keys) if rng.random() < 0.5 else nonkey() for _ in range(L)]
+            else:
+                other = ("u" + kd) if not kd.startswith("u") else kd[1:]
+                bits = np.dtype(kd).itemsize * 8
+                oi = np.iinfo(other)
+                s = []
+                for _ in range(L):
+                    k1 = rng.choice(keys)
+                    w = k1 + 2 ** bits if k1 < 0 else (k1 - 2 ** bits if k1 >= 2 ** (bits - 1) else k1)
+                    x = w if rng.random() < 0.6 else k1
+                    if oi.min <= x <= oi.max:
+                        s.append(x)
+                b["sdtype"] = other
         elif kind == "wide":
             if not widenable:
                 kind = b["kind"] = "mixed"
@@ -209,6 +243,20 @@ def directed():
         ini = [1] * 7 if init == "array" else init
         yield {"keys": keys, "kdtype": "int64", "mod": None, "mod2": 3, "init": ini, "perm": [], "cuts": [2, 5],
                "batches": [{"kind": "onlykeys", "samples": [3, 11]}, {"kind": "heavy", "samples": [7, 7, 7, 7]}, {"kind": "mixed", "samples": [7, 99, 7, 55]}]}
+    # one call with more samples than any internal chunk size (formula-generated; 100001 and 250001 are not multiples of 100000)
+    for n_ in (100001, 250001):
+        for init in ("default", [2, 0, 1, 5, 0]):
+            yield {"keys": [3, 7, 11, 20, 41], "kdtype": "int64", "mod": None, "mod2": 3, "init": init, "perm": [], "cuts": [1000, 100000, 100001],
+                   "batches": [{"kind": "huge", "gen": {"n": n_, "mult": 3, "extra": [5, 99, -4]}}]}
+    # a big table, values already materialised, then a small batch in which one key repeats
+    big = list(range(100, 100 + 3 * 40, 3))
+    for init in ("default", 4, [1] * 40):
+        yield {"keys": big, "kdtype": "int64", "mod": None, "mod2": 7, "init": init, "perm": [], "cuts": [3],
+               "batches": [{"kind": "onlykeys", "samples": big[:5]}, {"kind": "heavy", "samples": [big[7], big[7], big[7]]}, {"kind": "mixed", "samples": [big[1], 5, big[1]]}]}
+    # samples of the other signedness with the same bit pattern as a key
+    yield {"keys": [-1, 5], "kdtype": "int64", "mod": None, "mod2": 3, "init": "default", "perm": [], "cuts": [], "batches": [{"kind": "othersign", "samples": [2 ** 64 - 1, 5, 5], "sdtype": "uint64"}]}
+    yield {"keys": [-56, 7], "kdtype": "int8", "mod": None, "mod2": 3, "init": 4, "perm": [], "cuts": [], "batches": [{"kind": "othersign", "samples": [200, 7, 200], "sdtype": "uint8"}]}
+    yield {"keys": [250, 3], "kdtype": "uint8", "mod": None, "mod2": 2, "init": "default", "perm": [], "cuts": [], "batches": [{"kind": "othersign", "samples": [-6, 3], "sdtype": "int8"}]}
     # samples that wrap onto a key in the key dtype
     yield {"keys": [44, 3], "kdtype": "int8", "mod": None, "mod2": 2, "init": "default", "perm": [], "cuts": [],
            "batches": [{"kind": "wide", "samples": [300, 3, 259, 44, -212], "sdtype": "int64"}]}
